@@ -18,7 +18,8 @@ RULE = (
     "T-node checks predicted size = emitted bytes per directive node; distinct by hash of source + file digests; non-trivial = accepted"
 )
 ASSUMPTIONS = [
-    "value mod 2^(8k) little-endian for k = 1, 2, 3, 3 (.db .dw .dl .pointer); .ascii = ASCII bytes; .incbin = file bytes verbatim",
+    "value mod 2^(8k) little-endian for k = 1, 2, 3, 3 (.db .dw .dl .pointer); .ascii = the ASCII bytes of the text (a character that has none "
+    "emits nothing and occupies nothing); .incbin = file bytes verbatim",
     "symbol names <path with / and . replaced by _> and <...>__size",
     "every program is valid by construction, so a rejection is a violation",
 ]
@@ -113,9 +114,10 @@ def gen_program(rng: random.Random) -> dict:
                         expected += (v & ((1 << (8 * WIDTH[d])) - 1)).to_bytes(WIDTH[d], "little")
                 prog.append({"k": "data", "d": d, "es": es})
             elif c < 0.78:
-                t = "".join(rng.choice(ASCII_CHARS) for _ in range(rng.choice([0, 1, 3, 16, 60])))
+                chars = ASCII_CHARS + ("\u00e9\u30a2\u00a9\u00df" if rng.random() < 0.2 else "")
+                t = "".join(rng.choice(chars) for _ in range(rng.choice([0, 1, 3, 16, 60])))
                 prog.append({"k": "ascii", "t": t})
-                expected += t.encode("ascii")
+                expected += bytes(ord(c) for c in t if ord(c) < 128)     # a character without an ASCII byte emits nothing
             else:
                 sub = rng.random() < 0.3
                 fname = ("sub/" if sub else "") + f"blob{len(files)}.{rng.choice(['bin', 'dat', 'chr'])}"
